@@ -25,6 +25,10 @@ pub struct Case {
     pub bonded_st: Uint128,
     /// keeper-rate updates applied (by the owner) before the swap
     pub rate_updates: Vec<Dec>,
+    /// swap-denom list updates applied (by the owner) before the swap: (coin index into
+    /// [usei, kusd, uatom, ujunk], add?); the two reward coins are only ever (re-)added, never removed (E3)
+    #[serde(default)]
+    pub denom_updates: Vec<(u8, bool)>,
 }
 
 pub struct C17;
@@ -69,8 +73,9 @@ pub fn strategy() -> BoxedStrategy<Case> {
         (magnitude(), magnitude(), prop_oneof![3 => Just(Uint128::zero()), 1 => magnitude()], prop_oneof![3 => Just(Uint128::zero()), 1 => magnitude()]),
         (magnitude(), magnitude()),
         proptest::collection::vec(rate_update(), 0..3),
+        prop_oneof![3 => Just(vec![]), 2 => proptest::collection::vec((0u8..4, prop_oneof![3 => Just(true), 1 => Just(false)]), 1..4)],
     )
-        .prop_map(|(keeper_rate, price, (bal_st, bal_b, bal_third, bal_junk), (bonded_b, bonded_st), rate_updates)| Case {
+        .prop_map(|(keeper_rate, price, (bal_st, bal_b, bal_third, bal_junk), (bonded_b, bonded_st), rate_updates, denom_updates)| Case {
             keeper_rate,
             price,
             bal_st,
@@ -80,6 +85,7 @@ pub fn strategy() -> BoxedStrategy<Case> {
             bonded_b,
             bonded_st,
             rate_updates,
+            denom_updates,
         })
         .boxed()
 }
@@ -205,6 +211,19 @@ impl Prop for C17 {
             }
         }
         let rate = cur.dec();
+        // ---- swap-denom list updates: a coin is considered iff it is listed, however often it was added
+        let mut listed = [true, true, true, false];
+        for (ci, add) in &c.denom_updates {
+            let ci = (*ci as usize) % 4;
+            let denom = [USEI, KUSD, UATOM, UJUNK][ci];
+            let add = *add || ci < 2; // the reward coins are never removed (E3)
+            if let Err(e) = w.tx(OWNER, DISP, &DExec::UpdateSwapDenom { swap_denom: denom.into(), is_add: add }, &[]) {
+                out.fail(v("swap-denom-update-rejected", format!("owner's UpdateSwapDenom({}, {}) failed: {}", denom, add, e)));
+                return out;
+            }
+            listed[ci] = add;
+            out.label("swap_denom_list_updated");
+        }
         // ---- balances
         let (a_st, a_b, a_third, a_junk) = (c.bal_st.u128(), c.bal_b.u128(), c.bal_third.u128(), c.bal_junk.u128());
         w.mint(DISP, USEI, a_st);
@@ -253,12 +272,13 @@ impl Prop for C17 {
                 }
             }
         }
-        let avail_b = a_b + a_third; // the third coin is exchanged 1:1 into the bSei reward coin first
+        // listed third coins are exchanged 1:1 into the bSei reward coin first
+        let avail_b = a_b + if listed[2] { a_third } else { 0 } + if listed[3] { a_junk } else { 0 };
         if offered_usei > a_st || offered_kusd > avail_b {
             out.fail(v("swap-offers-more-than-held", format!("offered {} usei / {} kusd with {} / {} available", offered_usei, offered_kusd, a_st, avail_b)));
             return out;
         }
-        if w.balance(DISP, UATOM) != 0 && a_third > 0 {
+        if w.balance(DISP, UATOM) != 0 && a_third > 0 && listed[2] {
             out.fail(v("third-coin-not-swapped", format!("{} uatom left on the dispatcher", w.balance(DISP, UATOM))));
             return out;
         }
@@ -323,7 +343,7 @@ impl Prop for C17 {
             out.fail(v("dispatcher-keeps-coins", format!("{} kusd / {} usei left on the dispatcher", w.balance(DISP, KUSD), w.balance(DISP, USEI))));
             return out;
         }
-        if w.balance(DISP, UJUNK) != a_junk {
+        if w.balance(DISP, UJUNK) != if listed[3] { 0 } else { a_junk } {
             out.fail(v("unknown-coin-touched", format!("ujunk {} -> {}", a_junk, w.balance(DISP, UJUNK))));
             return out;
         }
